@@ -87,6 +87,7 @@ def run(ctx):
                 "dict/list/attribute containers with an acyclic data flow by construction, flat histories, wide fan-in, chains of 1500/5000 "
                 "dependants in both definition orders; every assignment judged by the pull-model oracle; non-trivial = an assignment that "
                 "triggered >= 1 task in a history with >= 2 definitions; distinct by history prefix")
+    ctx.scale_if_changed()
     proof_ok = vlib.standard_proof_part(ctx, "props/C01.v", extra_targets=["run/RunManager.vo"])
     n = ctx.pick(300, 6000)
     cases = [wide_case(6), wide_case(25)]
